@@ -73,9 +73,9 @@ type histScenario struct {
 	Forest  *fScenario  `json:"forest,omitempty"`
 	History gen.History `json:"history"`
 	// LeafMode selects adversarial leaf hashes (World.SetLeafMode): "" | "readd" | "prefix".
-	LeafMode string `json:"leaf_mode,omitempty"`
-	Cfgs    []InstCfg   `json:"cfgs,omitempty"`
-	Extra   any         `json:"extra,omitempty"`
+	LeafMode string    `json:"leaf_mode,omitempty"`
+	Cfgs     []InstCfg `json:"cfgs,omitempty"`
+	Extra    any       `json:"extra,omitempty"`
 }
 
 func parseHistScenario(raw json.RawMessage) (histScenario, error) {
